@@ -137,7 +137,10 @@ def main():
         rp = os.path.join(wd, "results.jsonl")
         if os.path.exists(rp):
             done = {json.loads(l)["id"] for l in open(rp)}
-        q = queue.Queue(); [q.put(m) for m in muts if m["id"] not in done]
+        import random
+        todo = [m for m in muts if m["id"] not in done]
+        random.Random(1).shuffle(todo)          # a uniform sample if the sweep is stopped early
+        q = queue.Queue(); [q.put(m) for m in todo]
         lock = threading.Lock()
         with open(rp, "a") as outf:
             ts = [threading.Thread(target=worker_checks, args=(i, q, wd, outf, lock)) for i in range(jobs)]
